@@ -5,7 +5,7 @@
 From Coq Require Import NArith List Bool Lia.
 From RQ Require Import Base.Outcome Base.Ints Base.Vec Spec.Linear Spec.Bits Model.FieldFast Model.CMatrix Model.Layout
   Model.Encoder Model.CertRun Model.Kernels Model.Tuple
-  Proofs.LinearInst Props.C06 Props.C11 Props.C15.
+  Model.Slab Model.DecoderPi Proofs.LinearInst Proofs.BuildMode Props.C06 Props.C11 Props.C15.
 Import ListNotations.
 Open Scope N_scope.
 
@@ -49,6 +49,19 @@ Theorem C07_matrix_mode_irrelevant : forall m K isis, Forall (fun x => x < 2 ^ 3
   generate_constraint_matrix m K isis = generate_constraint_matrix Release K isis.
 Proof. exact C06_matrix_mode_irrelevant. Qed.
 
+(* build mode, encoder: the intermediate symbols of a block do not depend on the build -- the reference model is
+   mode-independent, and the model that runs the REAL five-phase solver (debug variant: X matrix, full-row
+   eliminations, overflow checks; release variant: the errata-11 shortcuts) plus the operation replay yields the
+   same symbols in both variants, whenever the block is encodable at all *)
+Theorem C07_encoder_reference_mode_irrelevant : forall m syms T,
+  gen_intermediate_symbols m syms T = gen_intermediate_symbols Release syms T.
+Proof. exact gen_intermediate_symbols_mode. Qed.
+
+Theorem C07_encoder_build_mode_irrelevant : forall m1 m2 syms T C, wf_mat T syms ->
+  gen_intermediate_symbols m1 syms T = Ok C ->
+  gen_intermediate_symbols_pi m1 syms T = Ok C /\ gen_intermediate_symbols_pi m2 syms T = Ok C.
+Proof. exact encoder_build_mode_irrelevant. Qed.
+
 (* CPU: every dispatch path computes the same function as the portable kernels *)
 Theorem C07_kernel_dispatch_irrelevant : forall (m : mode) (c : cpu),
   (forall dest src, bytes dest -> bytes src ->
@@ -64,3 +77,5 @@ Print Assumptions C07_success_is_backend_independent.
 Print Assumptions C07_plan_origin_irrelevant.
 Print Assumptions C07_matrix_mode_irrelevant.
 Print Assumptions C07_kernel_dispatch_irrelevant.
+Print Assumptions C07_encoder_reference_mode_irrelevant.
+Print Assumptions C07_encoder_build_mode_irrelevant.
